@@ -15,6 +15,9 @@ OBLIGATIONS = [
     SX("sx_outliers", "sx_c16", "ob_outliers", cls="E", quick=200, parts=2,
        functions=[S + "superimpose.py:superimpose_without_outliers (anchor bookkeeping; real numpy)"],
        bounds="2 point sets of 10 atoms, rigidly moved, with 0..3 strongly displaced atoms x max_iterations 1/2/10 x min_anchors 3/6/9 (72 combinations): the returned transformation is the superimposition on exactly the returned anchors (tolerance 2e-3), reproduces the returned coordinates, anchor count >= min_anchors, all atoms are anchors for max_iterations=1"),
+    SX("sx_homologs", "sx_c16", "ob_homologs", cls="E", quick=200, parts=4,
+       functions=[S + "superimpose.py:superimpose_homologs/_find_matching_anchors/_get_backbone_anchor_indices (real numpy, compiled align_optimal, synthetic component dictionary)"],
+       bounds="2 peptides (12 and 10 residues, CA + CB per residue) x mobile sequence {identical, one deletion, two dissimilar substitutions, two-residue insertion, truncated at both ends} x 0..2 displaced residues x 1 or 2 chains x array / stack: anchors are increasing one-to-one pairs of CA atoms of corresponding residues in corresponding chains, the returned transformation is the superimposition on exactly the returned anchors and reproduces the returned structure, every undisturbed copy of a fixed residue lands on it (5e-3)"),
     SX("sx_degenerate", "sx_c16", "ob_degenerate", cls="E", quick=200, parts=4,
        functions=[S + "superimpose.py:superimpose/_get_rotation_matrices (SVD + reflection correction; real numpy / LAPACK)"],
        bounds="7 point sets (general, planar ring, planar irregular, collinear, two atoms, one atom, mirror-ambiguous) x 5 rotation axes x 5 angles (0, pi, pi/2, 2, pi-0.001) x with / without an extra atom outside the anchor set: rotation orthonormal with determinant +1, rigid copy fitted back with RMSD < 2e-3, the off-plane atom of planar anchors returns to its place (no mirror image)"),
